@@ -1,2 +1,3 @@
-import Tumfl.Props.C11
-#print axioms Tumfl.Props.C11_roundtrip
+import Tumfl.Props.C07
+#print axioms Tumfl.Props.C07_partial
+#print axioms Tumfl.Props.C07_canonical
